@@ -164,6 +164,10 @@ class Interp:
     # ------------------------------------------------------------------ calls
     def call(self, st: State, f, args, kwargs=None, site=None):
         kwargs = kwargs or {}
+        if isinstance(f, SOpt):
+            f = st.force(f)
+        if f is None:
+            raise PyRaise(SExc(TypeError, ("'NoneType' object is not callable",), site=site))
         if isinstance(f, FnVal):
             return self.call_fnval(st, f, args, kwargs, site)
         if isinstance(f, Method):
@@ -588,8 +592,8 @@ class Interp:
             raise PathEnd()
         self.exec_block(st, s.orelse, fr)
 
-    def loop_view(self, fr, i, iter_seq=None, entry=None):
-        d = {"iter_": iter_seq, "at_entry": entry}
+    def loop_view(self, fr, i, iter_seq=None, entry=None, mark=None):
+        d = {"iter_": iter_seq, "at_entry": entry, "trace_mark_": mark}
         f = fr
         chain = []
         while f is not None:
@@ -737,14 +741,17 @@ class Interp:
         st.assume(V._cmp("<=", i, n))
         self.assume_inv(st, spec, self.loop_view(fr, i, seq, entry))
         if st.branch(V._cmp("<", i, n)):
-            self.assign_target(st, s.target, Q.seq_get(seq, i), fr)
+            elem = Q.seq_get(seq, i)
+            self.assign_target(st, s.target, elem, fr)
+            mark = len(st.trace)
+            st.ghost["loop_elem"] = elem
             try:
                 self.exec_block(st, s.body, fr)
             except _Break:
                 return
             except _Continue:
                 pass
-            self.check_inv(st, spec, self.loop_view(fr, i + 1, seq, entry), f"{name}/inv-preserve")
+            self.check_inv(st, spec, self.loop_view(fr, i + 1, seq, entry, mark), f"{name}/inv-preserve")
             raise PathEnd()
         self.exec_block(st, s.orelse, fr)
 
@@ -1156,6 +1163,9 @@ class Interp:
             return r
         if isinstance(container, (str, bytes)) and not isinstance(x, Sym):
             return x in container
+        if isinstance(container, (LRef, SSeq)) and getattr(self.task.c, "abstract_contains", False):
+            # membership in a sequence of symbolic length, left unspecified (the contract does not depend on it)
+            return st.fresh_bool("contains")
         raise Unsupported(f"'in' on {type(container).__name__}")
 
     def truth(self, st, v) -> bool:
